@@ -234,3 +234,115 @@ def shrink(desc, still_fails, budget=200):
         if not progressed:
             step //= 2
     return cur
+
+
+# ---------------------------------------------------------------------------
+# SPEC of type-based interleaving, from the documented meaning only (doc/hwloc.doxy:
+# "indexes=numa:core ... OS indexes are interleaved by NUMA node first and then by ..."):
+# the os_index of an object counts, least significant first, its coordinate along each
+# named level in the WRITTEN order (coordinate = rank of its ancestor of that type inside
+# the closest enclosing named level, or inside the machine), and last its rank among the
+# objects sharing all those ancestors.  No loop step/nb arithmetic of the C code is used.
+# ---------------------------------------------------------------------------
+SPEC_TYPES = [("pack", 1), ("die", 2), ("numa", 14), ("l3", 7), ("l2", 6), ("core", 3)]
+_SPEC_RE = re.compile(r"^(pack|die|numa|l3|l2|core|pu):(\d+)(?:\(indexes=([a-z0-9:]+)\))?$")
+
+
+def spec_parse(desc):
+    """canonical typed description with at most one type-based indexes= attribute -> (levels, indexed level, names) or None"""
+    levels, idx = [], None
+    for tok in desc.split(" "):
+        m = _SPEC_RE.match(tok)
+        if not m:
+            return None
+        name, ar, ix = m.group(1), int(m.group(2)), m.group(3)
+        if ar < 1 or ar > 4096 or name in [l[0] for l in levels]:
+            return None
+        levels.append((name, ar))
+        if ix is not None:
+            if idx is not None or name not in ("pu", "numa"):
+                return None
+            names = ix.split(":")
+            if not names or any(n not in [l[0] for l in levels[:-1]] for n in names) or len(set(names)) != len(names):
+                return None
+            idx = (len(levels) - 1, names)
+    if not levels or levels[-1][0] != "pu" or idx is None:
+        return None
+    return levels, idx[0], idx[1]
+
+
+def spec_expected(desc):
+    """-> (type number of the indexed level, {os_index: frozenset(PU os_indexes)}) expected after load, or None"""
+    p = spec_parse(desc)
+    if p is None:
+        return None
+    levels, k, names = p
+    width, w = [], 1
+    for _, ar in levels:
+        w *= ar
+        width.append(w)
+    total, npu = width[k], width[-1]
+    if npu > 4096:
+        return None
+    depth = {n: i for i, (n, _) in enumerate(levels)}
+    listed = [depth[n] for n in names]
+
+    def coords(j):
+        cs = []
+        for d in listed:                          # written order, least significant first
+            anc = j // (total // width[d])        # ancestor of object j at level d
+            enclosing = [e for e in listed if e < d]
+            per = width[d] // (width[max(enclosing)] if enclosing else 1)
+            cs.append((anc % per, per))
+        deepest = max(listed)
+        below = total // width[deepest]
+        cs.append((j % below, below))
+        return cs
+
+    osidx = []
+    for j in range(total):
+        v, mul = 0, 1
+        for c, radix in coords(j):
+            v += c * mul
+            mul *= radix
+        osidx.append(v)
+    if sorted(osidx) != list(range(total)):
+        return None
+    per = npu // total
+    if levels[k][0] == "pu":
+        pus = osidx
+        # expected PU sets of every level above (position j of level d covers a slice of the PU array)
+        exp = {}
+        for d, (n, _) in enumerate(levels[:-1]):
+            sz = npu // width[d]
+            exp[n] = sorted(tuple(sorted(pus[j * sz:(j + 1) * sz])) for j in range(width[d]))
+        return ("pu", exp)
+    return ("numa", sorted((osidx[j], tuple(range(j * per, (j + 1) * per))) for j in range(total)))
+
+
+def gen_interleave_spec(rng, nstacks):
+    """all permutations of 2..4 loop types over random level stacks"""
+    import itertools
+    out = []
+    for _ in range(nstacks):
+        names = [n for n, _ in SPEC_TYPES if rng.random() < 0.7]
+        if len(names) < 2:
+            names = ["pack", "core"]
+        levels, tot = [], 1
+        for n in names:
+            ar = rng.choice([1, 2, 2, 3, 3, 4])
+            if tot * ar > 96:
+                ar = 1
+            tot *= ar
+            levels.append((n, ar))
+        levels.append(("pu", rng.choice([1, 2, 2, 3])))
+        target = "numa" if ("numa" in names and names.index("numa") >= 2 and rng.random() < 0.25) else "pu"
+        above = names[:names.index("numa")] if target == "numa" else names
+        k = rng.randint(2, min(4, len(above)))
+        sub = rng.sample(above, k)
+        for perm in itertools.permutations(sub):
+            toks = []
+            for n, ar in levels:
+                toks.append("%s:%d" % (n, ar) + ("(indexes=%s)" % ":".join(perm) if n == target else ""))
+            out.append(" ".join(toks))
+    return out
